@@ -529,36 +529,33 @@ impl MDL {
                             VertexUsage::Position => match element.vertex_type {
                                 VertexType::Single4 => {
                                     vertices[k as usize].position.clone_from_slice(
-                                        &MDL::read_single4(&mut cursor).unwrap()[0..3],
+                                        &MDL::read_single4(&mut cursor).ok()?[0..3],
                                     );
                                 }
                                 VertexType::Half4 => {
                                     vertices[k as usize].position.clone_from_slice(
-                                        &MDL::read_half4(&mut cursor).unwrap()[0..3],
+                                        &MDL::read_half4(&mut cursor)?[0..3],
                                     );
                                 }
                                 VertexType::Single3 => {
                                     vertices[k as usize].position =
-                                        MDL::read_single3(&mut cursor).unwrap();
+                                        MDL::read_single3(&mut cursor).ok()?;
                                 }
                                 _ => {
-                                    panic!(
-                                        "Unexpected vertex type for position: {:#?}",
-                                        element.vertex_type
-                                    );
+                                    return None;
                                 }
                             },
                             VertexUsage::BlendWeights => match element.vertex_type {
                                 VertexType::ByteFloat4 => {
                                     vertices[k as usize].bone_weight =
-                                        MDL::read_byte_float4(&mut cursor).unwrap();
+                                        MDL::read_byte_float4(&mut cursor)?;
                                 }
                                 VertexType::Byte4 => {
                                     vertices[k as usize].bone_weight =
-                                        MDL::read_tangent(&mut cursor).unwrap();
+                                        MDL::read_tangent(&mut cursor)?;
                                 }
                                 VertexType::UnsignedShort4 => {
-                                    let bytes = MDL::read_unsigned_short4(&mut cursor).unwrap();
+                                    let bytes = MDL::read_unsigned_short4(&mut cursor).ok()?;
                                     vertices[k as usize].bone_weight = [
                                         f32::from(bytes[0]),
                                         f32::from(bytes[1]),
@@ -567,19 +564,16 @@ impl MDL {
                                     ];
                                 }
                                 _ => {
-                                    panic!(
-                                        "Unexpected vertex type for blendweight: {:#?}",
-                                        element.vertex_type
-                                    );
+                                    return None;
                                 }
                             },
                             VertexUsage::BlendIndices => match element.vertex_type {
                                 VertexType::Byte4 => {
                                     vertices[k as usize].bone_id =
-                                        MDL::read_byte4(&mut cursor).unwrap();
+                                        MDL::read_byte4(&mut cursor).ok()?;
                                 }
                                 VertexType::UnsignedShort4 => {
-                                    let shorts = MDL::read_unsigned_short4(&mut cursor).unwrap();
+                                    let shorts = MDL::read_unsigned_short4(&mut cursor).ok()?;
                                     vertices[k as usize].bone_id = [
                                         shorts[0] as u8,
                                         shorts[1] as u8,
@@ -588,70 +582,58 @@ impl MDL {
                                     ];
                                 }
                                 _ => {
-                                    panic!(
-                                        "Unexpected vertex type for blendindice: {:#?}",
-                                        element.vertex_type
-                                    );
+                                    return None;
                                 }
                             },
                             VertexUsage::Normal => match element.vertex_type {
                                 VertexType::Half4 => {
                                     vertices[k as usize].normal.clone_from_slice(
-                                        &MDL::read_half4(&mut cursor).unwrap()[0..3],
+                                        &MDL::read_half4(&mut cursor)?[0..3],
                                     );
                                 }
                                 VertexType::Single3 => {
                                     vertices[k as usize].normal =
-                                        MDL::read_single3(&mut cursor).unwrap();
+                                        MDL::read_single3(&mut cursor).ok()?;
                                 }
                                 _ => {
-                                    panic!(
-                                        "Unexpected vertex type for normal: {:#?}",
-                                        element.vertex_type
-                                    );
+                                    return None;
                                 }
                             },
                             VertexUsage::UV => match element.vertex_type {
                                 VertexType::ByteFloat4 => {
-                                    let combined = MDL::read_byte_float4(&mut cursor).unwrap();
+                                    let combined = MDL::read_byte_float4(&mut cursor)?;
 
                                     vertices[k as usize].uv0.clone_from_slice(&combined[0..2]);
                                     vertices[k as usize].uv1.clone_from_slice(&combined[2..4]);
                                 }
                                 VertexType::Half4 => {
-                                    let combined = MDL::read_half4(&mut cursor).unwrap();
+                                    let combined = MDL::read_half4(&mut cursor)?;
 
                                     vertices[k as usize].uv0.clone_from_slice(&combined[0..2]);
                                     vertices[k as usize].uv1.clone_from_slice(&combined[2..4]);
                                 }
                                 VertexType::Single4 => {
-                                    let combined = MDL::read_single4(&mut cursor).unwrap();
+                                    let combined = MDL::read_single4(&mut cursor).ok()?;
 
                                     vertices[k as usize].uv0.clone_from_slice(&combined[0..2]);
                                     vertices[k as usize].uv1.clone_from_slice(&combined[2..4]);
                                 }
                                 VertexType::Half2 => {
-                                    let combined = MDL::read_half2(&mut cursor).unwrap();
+                                    let combined = MDL::read_half2(&mut cursor)?;
 
                                     vertices[k as usize].uv0.clone_from_slice(&combined[0..2]);
                                 }
                                 _ => {
-                                    panic!(
-                                        "Unexpected vertex type for uv: {:#?}",
-                                        element.vertex_type
-                                    );
+                                    return None;
                                 }
                             },
                             VertexUsage::BiTangent => match element.vertex_type {
                                 VertexType::ByteFloat4 => {
                                     vertices[k as usize].bitangent =
-                                        MDL::read_tangent(&mut cursor).unwrap();
+                                        MDL::read_tangent(&mut cursor)?;
                                 }
                                 _ => {
-                                    panic!(
-                                        "Unexpected vertex type for bitangent: {:#?}",
-                                        element.vertex_type
-                                    );
+                                    return None;
                                 }
                             },
                             VertexUsage::Tangent => {
@@ -659,23 +641,17 @@ impl MDL {
                                     // Used for... terrain..?
                                     VertexType::ByteFloat4 => {}
                                     _ => {
-                                        panic!(
-                                            "Unexpected vertex type for tangent: {:#?}",
-                                            element.vertex_type
-                                        );
+                                        return None;
                                     }
                                 }
                             }
                             VertexUsage::Color => match element.vertex_type {
                                 VertexType::ByteFloat4 => {
                                     vertices[k as usize].color =
-                                        MDL::read_byte_float4(&mut cursor).unwrap();
+                                        MDL::read_byte_float4(&mut cursor)?;
                                 }
                                 _ => {
-                                    panic!(
-                                        "Unexpected vertex type for color: {:#?}",
-                                        element.vertex_type
-                                    );
+                                    return None;
                                 }
                             },
                         }
